@@ -54,6 +54,10 @@ type allFacts struct {
 		Waits bool `json:"waits"`
 		Found bool `json:"found"`
 	} `json:"conn"`
+	Engine struct {
+		StartFailDone bool `json:"startfail_done"` // Protocol.Start closes doneChan when it cannot register
+		Found         bool `json:"found"`
+	} `json:"engine"`
 }
 
 type parsedFile struct {
@@ -588,6 +592,37 @@ func extract(repo, handPath string) {
 				return true
 			})
 			out.Conn.Waits = posWait != token.NoPos && posClose != token.NoPos && posWait < posClose
+		}
+	}
+	// Protocol.Start: if p.muxerDoneChan == nil { ...; close(p.doneChan) ...; return }
+	if pf, err := parseGo(filepath.Join(repo, "protocol", "protocol.go")); err == nil {
+		if fd := pf.decls["Protocol.Start"]; fd != nil {
+			ast.Inspect(fd.Body, func(n ast.Node) bool {
+				ifs, ok := n.(*ast.IfStmt)
+				if !ok {
+					return true
+				}
+				be, ok := ifs.Cond.(*ast.BinaryExpr)
+				if !ok || be.Op != token.EQL {
+					return true
+				}
+				sel, ok := be.X.(*ast.SelectorExpr)
+				if !ok || sel.Sel.Name != "muxerDoneChan" {
+					return true
+				}
+				out.Engine.Found = true
+				ast.Inspect(ifs.Body, func(m ast.Node) bool {
+					if call, ok := m.(*ast.CallExpr); ok {
+						if id, ok := call.Fun.(*ast.Ident); ok && id.Name == "close" && len(call.Args) == 1 {
+							if s, ok := call.Args[0].(*ast.SelectorExpr); ok && s.Sel.Name == "doneChan" {
+								out.Engine.StartFailDone = true
+							}
+						}
+					}
+					return true
+				})
+				return false
+			})
 		}
 	}
 	b, _ := json.MarshalIndent(out, "", " ")
